@@ -199,6 +199,8 @@ R_Complete(s) ==
              /\ UNCHANGED <<ind, defRep, defErr>>
   /\ UNCHANGED <<cfg, svars, lvars, qvars, order, est, tdue, ddl, fresh, reqs>>
 
+R_CompleteAny == \E s \in Servers : R_Complete(s)
+
 \* sleep_until(timeout) in Probe
 R_Timer ==
   /\ rst = "select" /\ tdue = NextTime
@@ -368,7 +370,7 @@ Next == \/ S_Begin \/ S_Iter \/ S_Fallback \/ S_LookupDone \/ S_QueryDone
         \/ L_ADone \/ L_Join
         \/ Q_New \/ Q_RunQuery \/ Q_Timeout \/ Q_Classify
         \/ R_Init \/ R_Probe \/ R_Timer \/ R_WaitEmpty
-        \/ \E s \in Servers : R_Complete(s)
+        \/ R_CompleteAny
 
 Spec == Init /\ [][Next]_vars /\ WF_vars(Next)
 
